@@ -23,7 +23,8 @@ CLAIMED = {
               "and a date string of at most 64 bytes, from which the amplification bound (reply <= 7*|request| + 4500 bytes) "
               "discharges the 16-bit UDP length conversion. Not exhibited by the model: memory exhaustion of the ever-growing table, stack, "
               "closed stdout, a clock before 1970, panics inside dependencies on unmodelled paths. Ten panic defects found "
-              "this way were repaired in /repo (see known_findings.txt)."),
+              "this way were repaired in /repo (see known_findings.txt). "
+              "The table invariant now also bounds the prefix buffer (at most 64 octets per control block)."),
         technique="Coq invariant + totality theorem over the Panic-explicit model + dev/release outcome correspondence + panic-site inventory"),
     "C02": dict(
         text=("Coq theorems over the model of reply(), for every configuration, connection table and frame: a frame whose "
@@ -47,7 +48,8 @@ CLAIMED = {
         design="DESIGN.md section 5, C03",
         note=("Trusted: Coq kernel/vm_compute, extraction + OCaml driver, harness; correspondence is testing; pnet accessor "
               "semantics modelled. Two genuine defects found while proving it were repaired in /repo (STUN method decoding, "
-              "multiple CHANGE-REQUEST attributes)."),
+              "multiple CHANGE-REQUEST attributes). "
+              "After the prefix-buffer fix (b2fc7fc) a TCP reply may answer bytes of earlier segments: C03_mirror uses the monitor that reads TCP ports without the request (source port = contacted port, or + 1 under a STUN success response), C03_mirror_strict keeps the exact form for flows without pending bytes."),
         technique="Coq theorem (decode-after-encode laws + per-responder port lemmas) + model/implementation correspondence"),
     "C04": dict(
         text=("Coq theorem over the model of reply(): every emitted frame (of octets, shorter than 64 KiB) passes the "
@@ -65,7 +67,8 @@ CLAIMED = {
               "semantics modelled. C04_wellformed_unconditional discharges 'emitted frame consists of octets and is shorter than "
               "64 KiB' for received frames <= 4096 octets (amplification bound 7*|request| + 4500, constants < 2048 bytes, "
               "SMB blobs octets: env_small / env_blobs_ok, re-decided per run); for longer received frames the two facts "
-              "remain hypotheses of C04_wellformed."),
+              "remain hypotheses of C04_wellformed. "
+              "After the prefix-buffer fix the closed theorems take table_pending_ok (every control block holds at most 64 pending octets), which C01 proves along every run (C01_table_invariant_pending)."),
         technique="Coq theorem (checksum algebra + decode-after-encode laws over the factorised pipeline) + model/implementation correspondence"),
     "C05": dict(
         text=("Coq theorem over the model of reply(): an ARP request (op 1) for a handled IPv4 address gets an Ethernet/IPv4 "
@@ -132,22 +135,28 @@ CLAIMED = {
               "'Distinct flows' are counted as distinct cookies (they differ from 4-tuples only on a SipHash collision, C08)."),
         technique="Coq invariant by induction over histories + table-size correspondence through a hook"),
     "C11": dict(
-        text=("Coq theorems over the model's TCP application layer (tcp_stream: a validated flow fed segment by segment "
-              "from a fresh control block): for a flow whose first segment completes the protocol signature, (RPC) every "
-              "segment up to and including the one completing the first message is answered with a function of the stream "
-              "prefix ending with that segment, for any number of cuts; (HTTP) the flow is the fold of the responder, the "
-              "responder never gets stuck, and the segment that carries the 401 is the first one at whose end ONE "
-              "whole-buffer parse of the stream prefix is in CONTENT (everything before gets a bare ACK), using the "
-              "parser-level theorems parse (parse s a) b ~ parse s (a ++ b) proved up to dead states (Properties/C11http.v); "
-              "the known class (first segment ends inside the signature) is refuted by a kernel-computed witness. Tied to "
-              "/repo by sending each stream under every 1-cut and 2-cut segmentation and sampled k-cuts on a fresh "
-              "validated flow: the completion offset is measured with single-segment prefixes and every segmentation must "
-              "show bare ACKs before, the reply at the segment containing that offset; model compared on every segment."),
-        design="DESIGN.md section 5, C11",
-        note=("Trusted: Coq kernel/vm_compute, extraction + OCaml driver, harness; correspondence is testing. Known finding "
-              "short_first_segment in known_findings.txt. The theorems speak about the application layer under the "
-              "hypothesis that identification completed in the first segment (tcp_first_id); the transport framing is C07."),
-        technique="Coq theorems (fold/append laws of the incremental parsers lifted to flows) + refutation witness for the known class + exhaustive 1-/2-cut segmentation correspondence"),
+        text=("Coq theorems over proto::repl for TCP flows, for ANY list of segments (no hypothesis on where the cuts fall): "
+              "while a flow is unidentified its control block holds exactly the one-shot matcher state and the bytes "
+              "received so far (C10_segmentation_tcb_new, C10_segmentation_pending); on the current table a signature "
+              "completes within the first 28 bytes of a stream or never (C10_identified_early / _unidentified_forever, a "
+              "per-run kernel computation with a soundness proof for every table), so the 64-byte buffer never overflows "
+              "before identification; C11_stream_join: if the concatenation of the first segments is unidentified and the "
+              "next segment identifies the flow, the exchange is 'bare ACKs, then exactly the exchange in which those bytes "
+              "arrived in one segment'. With the per-flow parser theorems (HTTP parse = per-byte fold, parse over a ++ b = "
+              "parse a then b; RPC fold) this gives, for HTTP and ONC-RPC and every segmentation: the segments before the "
+              "one containing the completing byte get bare ACKs, that segment carries the reply, and the reply is the one "
+              "the unsegmented stream gets (C11_rpc_stream in the uniform form tcp_stream = rpc_stream_ref; "
+              "C11_http_stream / C11_http_stream_segmentation in decomposition form). Tied to /repo by sending request "
+              "streams of all shapes, including malformed ones that must never be answered, junk-prefixed requests and "
+              "RPC calls with arguments, under every 1-cut and 2-cut segmentation (exhaustive up to 80 bytes) and sampled "
+              "k-cuts through real handshakes, compared with the model segment by segment and with the one-segment run."),
+        design="DESIGN.md sections 5 (C11) and 10.11",
+        note=("Trusted: Coq kernel/vm_compute, extraction + OCaml driver, harness; correspondence is testing. The former known "
+              "finding short_first_segment (first segment ends inside the signature: request lost) was REPAIRED in /repo "
+              "(fix b2fc7fc: bounded prefix buffer) and model, proofs and check follow; its witnesses are ordinary corpus "
+              "cases now. The HTTP statement is in decomposition form (quiet prefix, then http_outs on the joined stream), "
+              "not the uniform equation. The transport framing (seq/ack of each segment) is C07."),
+        technique="Coq theorems (matcher segmentation + prefix buffer invariant + fold/append laws of the incremental parsers, lifted to flows for every segmentation) + exhaustive 1-/2-cut model/implementation correspondence"),
     "C12": dict(
         text=("Coq theorems over the model: frames that layers 2-4 mark as replies (ARP ops other than request, ICMP/ICMPv6 "
               "echo replies, neighbour advertisements, TCP SYN|ACK and RST words -- decided for all 512 flag words) get no "
@@ -164,7 +173,8 @@ CLAIMED = {
               "check were repaired (per-flow parser never reset; RPC REPLY messages answered on an RPC flow). "
               "Observations outside the property: SSH banners and Gh0st frames are valid requests as well as replies, and "
               "a FIN|ACK is answered with a FIN|ACK, so two responders can bounce those for ever. "
-              "The first monitor ok_C12 (Spec/C12.v) demanded more than the text (content classifiers too coarse for byte strings that are both an RPC reply and a STUN request, both RPC layouts applied on both transports, clauses applied to continuation segments): C12_spec_monitor_refuted has the three witnesses; the check uses the corrected ok_C12x (Spec/C12x.v). The chain bound is proved for UDP (the SSH banner and the Gh0st frame, which are requests as well as replies and bounce for ever, are outside the property's list and provably unreachable from a listed start); over TCP the first-segment cases are proved, later segments are covered by the stateless clauses. Cross-layout / cross-dialect claims need a table hypothesis."),
+              "The first monitor ok_C12 (Spec/C12.v) demanded more than the text (content classifiers too coarse for byte strings that are both an RPC reply and a STUN request, both RPC layouts applied on both transports, clauses applied to continuation segments): C12_spec_monitor_refuted has the three witnesses; the check uses the corrected ok_C12x (Spec/C12x.v). The chain bound is proved for UDP (the SSH banner and the Gh0st frame, which are requests as well as replies and bounce for ever, are outside the property's list and provably unreachable from a listed start); over TCP the first-segment cases are proved, later segments are covered by the stateless clauses. Cross-layout / cross-dialect claims need a table hypothesis. "
+              "After the prefix-buffer fix C12x_frame is stated for flows without pending bytes (the stateless clauses judge a segment on its own bytes); proto_repl_tcp_C12_joined states them for the joined stream of any flow."),
         technique="Coq theorems (finite flag table + per-responder lemmas on the context-free cores) + extracted monitor + reflection-chain monitor on the implementation"),
     "C13": dict(
         text=("Coq theorems over the model of the HTTP responder and of proto::repl, for the tables and the 401 template "
